@@ -111,6 +111,17 @@ func c02Run(w *W, idx int) {
 		bs = append(bs, Binding{Vals: map[string]interface{}{"i0": int64(3), "b0": true, "b1": true}})
 		c02Program(w, r, "guard", tree, bs, true, true)
 		c02OneShot(w, r, tree, bs)
+		{
+			// a guard that costs more than what it guards (Reordering would evaluate the guarded operand first)
+			x, y := Var("i0", TInt), Var("i1", TInt)
+			guardOp := Op("!=", TBool, Op("*", TInt, x, y, Lit(int64(1)), Lit(int64(1+r.Intn(3)))), Lit(int64(0)))
+			body := Op(">", TBool, Op([]string{"/", "%"}[r.Intn(2)], TInt, Lit(int64(100)), x.Clone()), Lit(int64(1)))
+			t := Op("and", TBool, guardOp, body)
+			if r.Intn(2) == 0 {
+				t = Op("or", TBool, Op("=", TBool, Op("*", TInt, x.Clone(), y.Clone(), Lit(int64(1)), Lit(int64(1))), Lit(int64(0))), body)
+			}
+			c02OneShot(w, r, t, []Binding{{Vals: map[string]interface{}{"i0": int64(0), "i1": int64(5)}}, {Vals: map[string]interface{}{"i0": int64(7), "i1": int64(5)}}})
+		}
 	default:
 		// skeleton and two-leaf weighted up
 		names := []string{"skeleton", "two-leaf", "skeleton", "mixed", "two-leaf", "failing", "wide-deep", "mixed", "skeleton"}
